@@ -262,6 +262,11 @@ def check_module(tree):
         elif isinstance(n, ast.FunctionDef):
             if n.name not in ('cost_spec_zero_fn', 'cost_spec_fail_fn'):
                 raise Reject('the module defines another function (%s)' % n.name)
+            # the two defaults the model calls Default: a zero cost for every layer, an error for every layer
+            body = [ast.unparse(x) for x in _strip(n.body)]
+            want = {'cost_spec_zero_fn': ['return torch.tensor(0.0)'], 'cost_spec_fail_fn': ["raise KeyError(f'Cannot find cost model for pattern {x}')"]}[n.name]
+            if body != want or len(n.args.args) != 1:
+                raise Reject('%s is not `%s`' % (n.name, want[0]))
         elif isinstance(n, ast.Assign):
             if not (len(n.targets) == 1 and isinstance(n.targets[0], ast.Name) and n.targets[0].id == 'CostFn'):
                 raise Reject('module-level assignment: ' + _d(n)[:120])
